@@ -10,6 +10,9 @@ from sfv.rt import wfcheck, wfgen
 from sfv.translate import provguards
 
 
+KNOWN_POSITIONAL = "job-pipeline-pairs-jobs-with-inputs-by-position:input-ports-deliver-tags-in-different-orders"
+
+
 def oracle(spec: dict, res: dict, failing: bool):
     """yield (key, detail): ways in which the token / provenance tables of one run contradict the statement"""
     rp = wfcheck.real_prov(spec, res)
@@ -31,6 +34,7 @@ def oracle(spec: dict, res: dict, failing: bool):
         yield key, f"missing {missing[:6]} extra {extra[:6]} (edges are dependee>depender as port:tag)"
     # job pipelines: the output token of every job is linked to the job token and to one token per input
     tok = {t[0]: t for t in res["db"]["tokens"]}
+    pid2idx = {pid: int(i) for i, pid in res["port_ids"].items() if pid is not None}
     deps: dict[int, list[int]] = {}
     for a, b in res["db"]["provenance"]:
         deps.setdefault(b, []).append(a)
@@ -38,17 +42,50 @@ def oracle(spec: dict, res: dict, failing: bool):
         if n["kind"] != "exec":
             continue
         out = n["outs"][0]
+        jports: set = set()
         for tag, tid in res["token_ids"].get(str(out), {}).items():
             d = deps.get(tid, [])
             types = sorted(tok[x][3] for x in d if x in tok)
             if types.count("JobToken") != 1 or len(d) != len(n["ins"]) + 1:
                 yield "job-output-not-linked-to-job-token-and-inputs", f"exec node {n['id']} output {tag}: dependee types {types}, {len(n['ins'])} inputs"
             else:
-                # ... to ITS job token and to the inputs of THAT job: every dependee carries the tag of the job
+                show = lambda ids: sorted((str(pid2idx.get(tok[x][1], "?")), tok[x][2], tok[x][3]) for x in ids if x in tok)
+                jid = next(x for x in d if tok[x][3] == "JobToken")
+                jtag = tok[jid][2]
+                jports.add(tok[jid][1])
+                # (2) the output of tag t is linked to the job token OF TAG t and to inputs of tag t; every transferred input to
+                # the job token of its tag and to its source token
                 wrong = sorted((tok[x][3], tok[x][2]) for x in d if x in tok and tok[x][2] != tag)
-                if wrong:
-                    yield "job-output-linked-to-another-job-or-other-inputs", (
-                        f"exec node {n['id']} output {tag} depends on tokens with other tags: {wrong[:4]} (type, tag)")
+                want_in = {res["token_ids"].get(str(q), {}).get(tag) for q in n["ins"]}
+                bad_tr = []
+                for x in d:
+                    if x != jid and x in tok:
+                        dx = set(deps.get(x, []))
+                        jx = [y for y in dx if y in tok and tok[y][3] == "JobToken"]
+                        if not (len(jx) == 1 and tok[jx[0]][2] == tok[x][2] and len(dx & want_in) == 1 and len(dx) == 2):
+                            bad_tr.append((x, tok[x][2], sorted((tok[y][3], tok[y][2]) for y in dx if y in tok)))
+                if wrong or bad_tr:
+                    detail = (f"exec node {n['id']} output {tag} depends on tokens with other tags: {wrong[:4]} (type, tag); transferred "
+                              f"inputs linked to another job: {bad_tr[:3]}; arrival orders of the input ports: "
+                              f"{ {q: res['order'].get(str(q)) for q in n['ins']} }")
+                    orders = [res["order"].get(str(q)) for q in n["ins"]]
+                    if len(n["ins"]) >= 2 and any(o != orders[0] for o in orders):
+                        # narrow classification of one known defect: the transfer / execute steps pair the r-th job token with
+                        # the r-th token of their input port (by position, not by tag)
+                        yield KNOWN_POSITIONAL, detail
+                    else:
+                        yield "job-output-linked-to-another-job-or-other-inputs", detail
+        # (1) token-exact, by the JOB TOKEN'S OWN tag: the ScheduleStep links the job token of tag t to exactly the token tagged t
+        # on every input port of the pipeline (plus the connector token of the deployment, on an internal port, left out);
+        # ALL job tokens on the pipeline's job port, also those no output refers to
+        for jid, (_, jp, jtag, jtype) in sorted(tok.items()):
+            if jtype == "JobToken" and jp in jports:
+                want_j = {res["token_ids"].get(str(q), {}).get(jtag) for q in n["ins"]}
+                have_j = {x for x in deps.get(jid, []) if x in tok and tok[x][1] in pid2idx}
+                if None not in want_j and have_j != want_j:
+                    show = lambda ids: sorted((str(pid2idx.get(tok[x][1], "?")), tok[x][2], tok[x][3]) for x in ids if x in tok)
+                    yield "job-token-not-linked-to-the-inputs-of-its-tag", (
+                        f"exec node {n['id']}: job token {jtag} depends on (port, tag) {show(have_j)}, the inputs of that tag are {show(want_j)}")
 
 
 class C07(Property):
